@@ -1,5 +1,5 @@
 (* Proofs/SendNdp.v — arp_spoofer send paths, Router Solicitation, IPv6 probes of purge. *)
-From PV Require Import Proofs.SendBase Model.Send Model.SendNdp Spec.SendRefUdp Spec.SendKnown Proofs.Send.
+From PV Require Import Proofs.SendBase Model.Send Model.SendNdp Spec.SendRefUdp Proofs.Send.
 Open Scope N_scope.
 
 (* ---------------------------------------------------------------- *)
@@ -49,33 +49,26 @@ Proof.
 Qed.
 
 (* ---------------------------------------------------------------- *)
-(* ICMP6SendRouterSolicitation: refuted ... *)
-Lemma rs_refuted :
-  exists c junk fr, mac_ok (host_mac c) /\ ip6_ok (host_lla c) /\ length junk = EthMaxSize /\
-    send_rs c junk = Ok [fr] /\ wf_rs (host_mac c) (host_lla c) fr = false.
-Proof.
-  exists cfg0, (repeat 0 EthMaxSize). eexists.
-  repeat (split; [split; [reflexivity|oks]|]).
-  split; [reflexivity|]. split; vm_compute; reflexivity.
-Qed.
-
-(* ... and for every configuration and buffer content the frame is exactly the recorded defect class:
-   ICMPv6 type 0 code 0 (the 4 reserved bytes taken for the header) to ff02::1 / 33:33:00:00:00:02,
-   hop limit 255, host MAC and LLA as source, body = the SLLA option with the host MAC, checksum valid *)
-Lemma rs_partial c junk :
+(* ICMP6SendRouterSolicitation (ICMPv6 header since fix 6efe826, all-routers ff02::2 since fix 5d47cb2):
+   type 133 to ff02::2 / 33:33:00:00:00:02, hop limit 255, host MAC and LLA as source, SLLA option = host MAC,
+   checksum verifies — for every configuration and buffer content *)
+Lemma rs_wf c junk :
   mac_ok (host_mac c) -> ip6_ok (host_lla c) -> length junk = EthMaxSize ->
-  exists fr, send_rs c junk = Ok [fr] /\
-    known_rs_noheader (a_ip ip6_all_nodes_addr) (host_mac c) (host_lla c) fr = true.
+  exists fr, send_rs c junk = Ok [fr] /\ wf_rs (host_mac c) (host_lla c) fr = true.
 Proof.
   intros H1 H2 HJ.
-  assert (HJ' : (66 <= length junk)%nat) by (rewrite HJ; unfold EthMaxSize; lia).
-  destruct (split_at 66 junk HJ') as (j & rest & -> & Hj). clear HJ HJ'.
+  assert (HJ' : (70 <= length junk)%nat) by (rewrite HJ; unfold EthMaxSize; lia).
+  destruct (split_at 70 junk HJ') as (j & rest & -> & Hj). clear HJ HJ'.
   unfold send_rs, rs_marshal, lla_option, raw_option. destruct c as [hm hip hlla rm rip mtu]. cbn [host_mac host_lla] in *.
   rewrite (proj1 H1). cbn [Nat.eqb].
   explode_ok hm H1. explode_ok hlla H2. explode j Hj.
   eexists. split; [cbn; reflexivity|]. abs_cks.
-  unfold known_rs_noheader. run. eqbs. icmp6_cks.
+  unfold wf_rs. run. eqbs. icmp6_cks.
 Qed.
+
+(* a host MAC that is not 6 bytes long: LinkLayerAddress.marshal fails, nothing is sent *)
+Lemma rs_refuses_bad_mac c junk : Nat.eqb (length (host_mac c)) 6 = false -> send_rs c junk = Ok [].
+Proof. unfold send_rs, rs_marshal, lla_option. intros ->. reflexivity. Qed.
 
 (* ---------------------------------------------------------------- *)
 (* purge: IPv6 probes.  Link-local host: NS to its solicited-node group (33:33:ff:xx:xx:xx), well-formed
